@@ -208,9 +208,13 @@ def run_jobs(workdir, jobs, nshards=16, tag='rep'):
 
     os.makedirs(workdir, exist_ok=True)
     nshards = max(1, min(nshards, len(jobs)))
-    parts = [jobs[i::nshards] for i in range(nshards)]
-    paths = [os.path.join(workdir, f'{tag}_{i:02d}.ndjson') for i in range(nshards)]
-    with mp.Pool(min(16, nshards)) as pool:
+    # keep the records of one (kind, name, space) together: each worker builds a representation and its table once
+    order = sorted(range(len(jobs)), key=lambda i: (jobs[i]['kind'], json.dumps(jobs[i]['space_json'], sort_keys=True), jobs[i]['name']))
+    per = (len(jobs) + nshards - 1) // nshards
+    parts = [[jobs[i] for i in order[k * per:(k + 1) * per]] for k in range(nshards)]
+    parts = [p for p in parts if p]
+    paths = [os.path.join(workdir, f'{tag}_{i:02d}.ndjson') for i in range(len(parts))]
+    with mp.Pool(min(16, len(parts))) as pool:
         counts = pool.map(_worker, list(zip(paths, parts)))
     return paths, {'records': sum(c[0] for c in counts), 'distinct': sum(c[1] for c in counts)}
 
